@@ -321,7 +321,7 @@ func c19Fanout(p *Program, r *Report) {
 		return
 	}
 	fn := es.Publish
-	g := p.ig(fn)
+	g := p.igx(fn) // the locked snapshot may be taken by a single-use helper
 	if len(fn.Params) < 3 {
 		r.Unresolved("Publish(ctx, event) parameters")
 		return
@@ -330,7 +330,7 @@ func c19Fanout(p *Program, r *Report) {
 	// (1) the lookup key in the by-type table is reflect.TypeOf(event)
 	okKey, nKey := true, 0
 	for _, a := range p.fieldAccesses(map[*types.Var]bool{es.ByType: true}) {
-		if a.Fn != fn || a.Kind != "lookup" {
+		if !g.owns(p, a.Fn) || a.Kind != "lookup" {
 			continue
 		}
 		lk := a.In.(*ssa.Lookup)
@@ -338,8 +338,8 @@ func c19Fanout(p *Program, r *Report) {
 			continue
 		}
 		nKey++
-		c, ok := strip(lk.Index).(*ssa.Call)
-		if !ok || calleeQual(&c.Call) != "reflect.TypeOf" || strip(c.Call.Args[0]) != ssa.Value(event) {
+		c, ok := g.res(lk.Index).(*ssa.Call)
+		if !ok || calleeQual(&c.Call) != "reflect.TypeOf" || g.res(c.Call.Args[0]) != ssa.Value(event) {
 			okKey = false
 		}
 	}
@@ -347,7 +347,7 @@ func c19Fanout(p *Program, r *Report) {
 	// (2) the loop ranges over a value that is not the shared table (snapshot) and tells each element once
 	var rng *ssa.Range
 	for _, in := range g.Nodes {
-		if x, ok := in.(*ssa.Range); ok {
+		if x, ok := in.(*ssa.Range); ok && (rng == nil || x.Parent() == fn) {
 			rng = x
 		}
 	}
@@ -416,22 +416,17 @@ func c19Fanout(p *Program, r *Report) {
 		r.Unresolved("Publish has no range loop over subscribers")
 		return
 	}
-	snap := false
-	if c, ok := rng.X.(*ssa.Call); ok {
-		q := calleeQual(&c.Call)
-		snap = q == "maps.Clone"
-	}
-	if ph, ok := rng.X.(*ssa.Phi); ok {
-		_ = ph
-	}
-	if _, isAlloc := rng.X.(*ssa.MakeMap); isAlloc {
-		snap = true
-	}
-	if !snap {
-		// a locally built copy: make + loop of map updates under the lock
-		if mm, ok := rng.X.(*ssa.MakeMap); ok {
-			_ = mm
-			snap = true
+	snap := true
+	for _, x := range g.values(rng.X) {
+		switch y := x.(type) {
+		case *ssa.Call:
+			if calleeQual(&y.Call) != "maps.Clone" {
+				snap = false
+			}
+		case *ssa.MakeMap:
+			// a locally built copy: make + loop of map updates under the lock
+		default:
+			snap = false
 		}
 	}
 	r.Check(snap, "Publish iterates a snapshot", rng.Pos(), "the delivery loop ranges over a private copy (maps.Clone / locally built map), not over the shared table")
